@@ -45,5 +45,5 @@ CONF = dict(
                  'heap.ops oracle: heap order, distinct keys, qidx = slot index, Pop returned a least element; model comparison: exact queue array and qidx after every operation'),
     timeout_quick=900, timeout_thorough=3000,
     extra_thorough=[dict(cmd='c07race', race=True), dict(cmd='c07heap')],
-    min_cases={'tss.flood': 1, 'tss.hist': 210, 'tss.lockdiscipline': 1},
+    min_cases={'lsn.hist': 12, 'tss.conc': 1, 'tss.flood': 1, 'tss.full': 1, 'tss.hist': 210, 'tss.lockdiscipline': 1},
 )
